@@ -36,8 +36,9 @@ ASSUMPTIONS = ['all durations are dyadic rationals of small magnitude, so virtua
 
 OUTCOME_EXC = {'exc_conn': SimConnError, 'exc_reset': SimConnReset, 'exc_timeout': SimTimeout,
                'exc_other': SimOther, 'lost_conn': SimConnError, 'abort': SimAbort,
-               'exc_cancelled': asyncio.CancelledError}
-NOTIF_OUTCOMES = ('ok', 'exc_conn', 'exc_reset', 'exc_timeout', 'exc_other', 'lost_conn', 'abort', 'exc_cancelled')
+               'exc_cancelled': asyncio.CancelledError, 'exc_stopiter': StopIteration}
+NOTIF_OUTCOMES = ('ok', 'exc_conn', 'exc_reset', 'exc_timeout', 'exc_other', 'lost_conn', 'abort', 'exc_cancelled',
+                  'exc_stopiter')
 
 
 def retryable(scn: Dict[str, Any], strategy: Optional[Dict[str, Any]], outcome: str) -> bool:
@@ -282,7 +283,8 @@ def _targeted_cancel(w: World, scn: Dict[str, Any]) -> float:
     t, cands = 0.0, []
     for k in range(exp_sends):
         step = scn['script'][k] if k < len(scn['script']) else {'pre': 0.0, 'post': 0.0, 'outcome': 'ok'}
-        before = step['outcome'] in ('exc_conn', 'exc_reset', 'exc_timeout', 'exc_other', 'abort', 'exc_cancelled')
+        before = step['outcome'] in ('exc_conn', 'exc_reset', 'exc_timeout', 'exc_other', 'abort', 'exc_cancelled',
+                                     'exc_stopiter')
         dur = step['pre'] + (0.0 if before else step['post'])
         cands += [t + dur / 2, t + dur]
         t += dur
@@ -305,7 +307,7 @@ def _family(client_async: bool):
             if isinstance(scn[key], dict):
                 for kind in ('codes', 'exceptions'):
                     w.faults_cfg[f'strategy.{kind}.{"none" if scn[key][kind] is None else len(scn[key][kind])}'] += 1
-        obs = CS.run_scenario(w, scn, client_async)
+        obs = CS.run_scenario(w, scn, client_async, allow_stopiter=True)
         if obs.cancelled_at is not None:
             judge_cancelled(w, scn, obs)
         else:
@@ -382,6 +384,9 @@ def fam_concurrent_async(w: World) -> None:
         scn['script'] = (scn['script'] * 4)[:(eff['backoff']['attempts'] if eff else 0) + 2]
         w.probe('concurrent.placement.' + scn['placement'])
         scn['start'] = ch.choice([0.0, 0.0, 0.25, 1.0, 0.5], 'concurrent.start')
+        for step in scn['script']:
+            if step['outcome'] == 'exc_stopiter':
+                step['outcome'] = 'exc_other'      # an asynchronous transport cannot raise StopIteration to its caller
         normalise_script(scn)
         scns.append(scn)
     w.scenario = {'client_async': True, 'concurrent': True, 'callers': scns}
